@@ -21,7 +21,7 @@ from ..core import Violation
 from .peer import PeerSim
 
 DISC = ConnectionState.DISCONNECTED_BROKEN_CONN
-FRAME_TYPES = ["A", "0", "1", "2", "4gf", "4rs", "5", "D", "8"]
+FRAME_TYPES = ["A", "0", "1", "2", "4gf", "4rs", "5", "D", "8", "Abare"]
 DEFECTS = ["none", "none", "begin", "sender_wrong", "target_wrong", "swapped", "sender_missing", "target_missing",
            "seq_missing", "seq_low", "seq_high", "seq_alpha"]
 SEND_TYPES = ["D", "0", "A", "5", "1", "2", "4"]
@@ -412,7 +412,10 @@ class GateSim(PeerSim):
                     "2": [("7", "1"), ("16", "0")], "4gf": [("123", "Y"), ("36", (seq if isinstance(seq, int) else E) + 2)],
                     "4rs": [("36", (seq if isinstance(seq, int) else E) + 2)],
                     "5": [("58", "bye")]}.get(t, [("11", f"P-{self.app_id}"), ("55", "ES"), ("54", "1"), ("38", "1"), ("44", "1")])
-            mt = "4" if t.startswith("4") else t
+            if t == "Abare":
+                # a Logon without EncryptMethod / HeartBtInt
+                body = [("98", "0")] if w == 1 else ([("108", self.cfg["hb"])] if w == 2 else [])
+            mt = "4" if t.startswith("4") else ("A" if t == "Abare" else t)
             ent = p.send(mt, body, seq=seq, possdup=pd, count=False, spec={"stim": 1, "defect": defect}, **kw)
             if cur is not None:
                 cur.update(t=t, defect=defect, pd=pd, seq=seq, frame=ent["frame"])
@@ -628,13 +631,13 @@ class GateSim(PeerSim):
         if not cur["complete"] and defect in ("none", "seq_high"):
             # before the Logon exchange completed: nothing but Logon/Logout is acted upon (global invariants
             # already cover callbacks / ACTIVE / reply frames); the acceptor drops on a non-Logon first frame
-            if self.eut_role == "acceptor" and st0 == ConnectionState.NETWORK_CONN_ESTABLISHED and t != "A":
+            if self.eut_role == "acceptor" and st0 == ConnectionState.NETWORK_CONN_ESTABLISHED and t not in ("A", "Abare"):
                 if not disconnected:
                     bad("first-frame-not-logon-tolerated", f"acceptor stayed {now.name} after a non-Logon first frame")
                 if lv.next_num_in != cur["E"]:
                     bad("first-frame-not-logon-counted", f"inbound counter {cur['E']} -> {lv.next_num_in}")
                 self.probe("acceptor_dropped_on_non_logon_first_frame")
-            elif t not in ("A", "5") and lv.next_num_in != cur["E"]:
+            elif t not in ("A", "Abare", "5") and lv.next_num_in != cur["E"]:
                 self.probe("silent_counter_advance_before_logon")
 
     def converged(self):
